@@ -191,6 +191,22 @@ impl RawHeader {
         h
     }
 
+    /// Like `layout_region`, followed by `extra` records *behind* the immutable region (the trailer
+    /// counts only the region's entries): what rpm does when it appends tags to an existing header.
+    pub fn layout_region_dribble(region_tag: u32, records: &[(u32, Val)], extra: &[(u32, Val)]) -> Self {
+        let mut h = RawHeader::layout_region(region_tag, records);
+        for (tag, v) in extra {
+            while h.store.len() % v.align() != 0 {
+                h.store.push(0);
+            }
+            h.entries.push(RawEntry { tag: *tag, ty: v.ty(), offset: h.store.len() as i32, count: v.count() });
+            h.store.extend_from_slice(&v.bytes());
+        }
+        h.nindex = h.entries.len() as u32;
+        h.hsize = h.store.len() as u32;
+        h
+    }
+
     /// Permute the index entries without touching the store (the format does not prescribe an
     /// order; rpm and this library's builder happen to sort by tag). A leading region entry
     /// stays first. kind 0 = as is, 1 = reversed, 2 = first entry moved to the end.
